@@ -82,12 +82,59 @@ class Scope(dict):
     re-encoded from what a later step of the same chain sees of the scope (`Peek`), when there is one"""
 
 
+# ---- write log: the ORDER in which glom writes (F11-2: "attached last" observed on the implementation)
+WLOG = []          # ids of the objects written to (item / attribute stores and deletions), in order
+
+
+class LogDict(dict):
+    """a plain dict whose stores / deletions are logged (no `__dict__`: behaves like `dict` for setattr)"""
+    __slots__ = ()
+
+    def __setitem__(self, k, v):
+        dict.__setitem__(self, k, v)
+        WLOG.append(id(self))          # (a store that raised is no write)
+
+    def __delitem__(self, k):
+        dict.__delitem__(self, k)
+        WLOG.append(id(self))          # (a store that raised is no write)
+
+
+class LogList(list):
+    __slots__ = ()
+
+    def __setitem__(self, k, v):
+        list.__setitem__(self, k, v)
+        WLOG.append(id(self))          # (a store that raised is no write)
+
+    def __delitem__(self, k):
+        list.__delitem__(self, k)
+        WLOG.append(id(self))          # (a store that raised is no write)
+
+
+class LogObj(Obj):
+    def __setattr__(self, n, v):
+        object.__setattr__(self, n, v)
+        WLOG.append(id(self))          # (a store that raised is no write)
+
+    def __delattr__(self, n):
+        object.__delattr__(self, n)
+        WLOG.append(id(self))          # (a store that raised is no write)
+
+
+CALLABLES = {'len': len, 'abs': abs, 'sorted': sorted}       # callables used as VALUES (arg mode does not call them)
+
+LOGGED = {'dict': LogDict, 'list': LogList, 'Obj': LogObj}     # catalogue name -> logging stand-in
+
+
 CLASSES = OrderedDict((c.__name__, c) for c in [
     dict, OrderedDict, DictSub, GuardDict, list, ListSub, GuardList, tuple, TupleSub, set,
-    frozenset, Obj, Obj2, ROObj, GuardObj, Scope, TLeaf])
+    frozenset, Obj, Obj2, ROObj, GuardObj, Scope, TLeaf, __import__('collections').deque])
 
 
 def layout_of(c):
+    import collections
+    if c is collections.deque:
+        return 'list'          # items by index; NOT a list: no registered type but `object` above it
     if issubclass(c, dict):
         return 'dict'
     if issubclass(c, list):
@@ -121,7 +168,7 @@ def _flags(name, c):
                 fl.append('ro:' + k)
     else:
         base = {'dict': dict, 'list': list, 'tuple': tuple, 'set': set}[lay]
-        if lay in ('dict', 'list'):
+        if lay in ('dict', 'list') and c.__name__ != 'deque':
             if c.__setitem__ is not base.__setitem__ and c is not OrderedDict:
                 fl.append('raise_setitem')
             if c.__delitem__ is not base.__delitem__ and c is not OrderedDict:
@@ -226,12 +273,15 @@ class Runner:
 
 
 # ------------------------------------------------------------------ codec
-def decode(heap):
-    """build real objects from heap JSON (sharing and cycles included) -> (objs by address, dv)"""
+def decode(heap, logged=False):
+    """build real objects from heap JSON (sharing and cycles included) -> (objs by address, dv).
+    logged: plain dict / list / Obj cells become their logging stand-ins (same behaviour, writes logged)"""
     objs = [None] * len(heap)
     pending = []
     for a, cell in enumerate(heap):
         cls = CLASSES[cell['c']]
+        if logged and cell['c'] in LOGGED:
+            cls = LOGGED[cell['c']]
         lay = cell['k']
         if cls is Scope:
             objs[a] = {}
@@ -268,6 +318,8 @@ def decode(heap):
             if objs[a] is None:
                 build_immutable(a)
             return objs[a]
+        if 'fn' in j:
+            return CALLABLES[j['fn']]
         raise ValueError('cannot decode %r' % (j,))
 
     for a in pending:
@@ -282,7 +334,7 @@ def decode(heap):
             for k, v in cell['v']:
                 setitem(o, dv(k), dv(v))
         elif lay == 'list':
-            list.extend(o, [dv(x) for x in cell['v']])
+            (o.extend if cell['c'] == 'deque' else (lambda xs, _o=o: list.extend(_o, xs)))([dv(x) for x in cell['v']])
         elif lay == 'set' and isinstance(o, set):
             for x in cell['v']:
                 o.add(dv(x))
@@ -307,10 +359,12 @@ class Encoder:
                 self.alias[id(o)] = 'Scope'
             elif cell['c'] == 'TLeaf':
                 self.fixed[id(o)] = cell
+            elif type(o) in (LogDict, LogList, LogObj):
+                self.alias[id(o)] = cell['c']
 
     def is_container(self, v):
         n = type(v).__name__
-        return (n in CLASSES and type(v) is CLASSES[n]) or id(v) in self.fixed
+        return (n in CLASSES and type(v) is CLASSES[n]) or id(v) in self.fixed or id(v) in self.alias
 
     def reserve(self, v):
         """give `v` the next address without visiting its children yet"""
@@ -341,7 +395,7 @@ class Encoder:
         if lay == 'dict':
             return {'k': 'dict', 'c': cn, 'v': [[ev(k), ev(x)] for k, x in dict.items(v)]}
         if lay == 'list':
-            return {'k': 'list', 'c': cn, 'v': [ev(x) for x in list.__iter__(v)]}
+            return {'k': 'list', 'c': cn, 'v': [ev(x) for x in (iter(v) if cn == 'deque' else list.__iter__(v))]}
         if lay == 'tuple':
             return {'k': 'tuple', 'c': cn, 'v': [ev(x) for x in tuple.__iter__(v)]}
         if lay == 'set':
@@ -401,7 +455,8 @@ class HeapGen:
         if lay == 'dict':
             return r.choice(['dict'] * 6 + ['OrderedDict', 'DictSub', 'DictSub'] + (['GuardDict'] if f else []))
         if lay == 'list':
-            return r.choice(['list'] * 6 + ['ListSub'] + (['GuardList'] if f else []))
+            # (deque: a sequence that is not a list — plain segments find no sequence handler: getattr / setattr)
+            return r.choice(['list'] * 6 + ['ListSub', 'deque'] + (['GuardList'] if f else []))
         if lay == 'tuple':
             return r.choice(['tuple'] * 5 + ['TupleSub'])
         if lay == 'set':
@@ -517,11 +572,13 @@ def spell(rng, steps, style):
     """steps: [(kind, key)] with kind in key/idx/attr/star/raw -> spelling dict.
     raw: key is already an [op, arg] T step (wrong access kind on purpose)."""
     if style == 'text':
-        return {'text': '.'.join('*' if k == 'star' else seg_text(k, key) for k, key in steps)}
+        return {'text': '.'.join('*' if k == 'star' else '**' if k == 'starstar' else seg_text(k, key) for k, key in steps)}
     parts = []
     for kind, key in steps:
         if kind == 'star':
             parts.append({'t': [['x', None]]})
+        elif kind == 'starstar':
+            parts.append({'t': [['X', None]]})
         elif kind == 'raw':
             parts.append({'t': [key]})
         elif style == 'path' or (style == 'mixed' and rng.random() < 0.5):
@@ -659,9 +716,14 @@ def load_corpus(prop):
 
 
 # ------------------------------------------------------------------ destination generator
+STARSTAR = True        # generate `**` in destinations (weak check only)
 NEW_NAMES = ['n0', 'n1', 'zz', 'x', 'X']
 BAD_SEGS = [{'s': 'zz'}, {'s': '99'}, {'s': '-99'}, {'i': 99}, {'i': -99}, {'s': ''}, None,
-            {'b': True}, {'s': '+1'}, {'s': '0'}, {'i': 0}, {'s': 'a'}]
+            {'b': True}, {'s': '+1'}, {'s': '0'}, {'i': 0}, {'s': 'a'},
+            # segments CPython's int() reads and the kernel's `[+-]?[0-9]+` does not (whitespace is
+            # stripped, single underscores skipped, every Unicode decimal digit counts, int(1.5) == 1):
+            # outside the model's int() — the drivers check same-object / atomicity only on them
+            {'s': ' 1 '}, {'s': '0_1'}, {'s': '\u0661'}, {'s': '1\n'}, {'f': (1.5).hex()}, {'f': (0.0).hex()}]
 
 
 def final_step(rng, heap, parent, present):
@@ -711,7 +773,9 @@ def gen_dest(rng, heap, root, maxlen, want_present, absent_tail, star_p=0.15, fi
     # wildcards: replace a prefix step by `*` (the rest keeps addressing one child's shape)
     if len(steps) >= 2 and rng.random() < star_p:
         i = rng.randrange(len(steps) - 1)
-        steps[i] = ('star', None)
+        # (one in eight of them `**`: every level below — the enumeration order of `**` is C14's subject,
+        # C11 / C12 check on such paths only what needs no model of it)
+        steps[i] = ('starstar', None) if STARSTAR and rng.random() < 0.125 else ('star', None)
         if len(steps) >= 3 and rng.random() < 0.3:
             j = rng.randrange(len(steps) - 1)
             steps[j] = ('star', None)
@@ -961,7 +1025,7 @@ def mutate_dest(rng, steps):
 
 
 def choose_style(rng, steps, sroot):
-    can_text = not sroot and all(k == 'star' or (k != 'raw' and text_ok(k, key)) for k, key in steps)
+    can_text = not sroot and all(k in ('star', 'starstar') or (k != 'raw' and text_ok(k, key)) for k, key in steps)
     styles = ['path', 'mixed', 'mixed', 't'] + (['text', 'text', 'text'] if can_text else [])
     if sroot:
         styles = ['t', 't', 'mixed']
@@ -994,6 +1058,22 @@ def s_first(rng, sp, p=S_FIRST_PLAIN_P):
     else:
         new = {'t': [['[' if first['t'][0][0] in ('.', 'P') else first['t'][0][0], key]] + rest}
     return {'parts': [new] + parts[1:]}
+
+
+def gen_readback(rng, steps, style, p, sroot=False, star_readback=True):
+    """chain mode: `(<spec under test on dest>, <peek>, readPath)` — a later step of the same chain reads the
+    destination path (or a non-empty prefix of it) back, from the same root, in the same spelling"""
+    if rng.random() >= p or not steps:
+        return None
+    n = len(steps) if rng.random() < 0.6 else rng.randint(1, len(steps))
+    if sroot and not star_readback:
+        stars = [i for i, st in enumerate(steps[:n]) if st[0] == 'star']
+        if stars:
+            n = stars[0]
+            if n == 0:
+                return None
+    sp = spell(rng, steps[:n], style)
+    return {'spelling': s_first(rng, sp, S_FIRST_PLAIN_P) if sroot else sp}
 
 
 def make_scope(rng, heap, root):
